@@ -185,6 +185,86 @@ def prog_spec(prog):
     return {"page": prog.page, "comps": {n: c.template for n, c in prog.comps.items()}}
 
 
+# ------------------------------------------------------------------ three-level family
+# page -> a -> b with fills handed down at both levels, pass-through slots and the default= alias: the
+# shapes in which a slot could be resolved against the *wrong* instance need 8-13 nodes, beyond the
+# node-bounded enumeration, so they are enumerated as a structured family (every combination of the
+# choices below).
+def family_programs():
+    import itertools
+
+    from mc.proggen import label
+
+    T = ("T", None)
+    for page_fills in itertools.product((False, True), repeat=3):  # page gives a: fill x / fill y / fill default
+        for a_fill_x in ("none", "plain", "alias", "alias+slot", "passthrough-x", "passthrough-y"):
+            for a_fill_y in ("none", "plain"):
+                for a_own in ("none", "slot-y", "slot-x-default"):
+                    for b_inner in ("y", "x", "y-default", "none"):
+                        for b_outer_flag in ("", "d"):
+                            # b: slot x { B1, [slot <inner> { B2 }] }
+                            inner = ()
+                            if b_inner != "none":
+                                nm = b_inner.split("-")[0]
+                                inner = (("Slot", nm, "d" if b_inner.endswith("default") else "", (), (T,)),)
+                            b_tpl = (("Slot", "x", b_outer_flag, (), (T,) + inner),)
+                            fills = []
+                            if a_fill_x == "plain":
+                                fills.append(("Fill", "x", None, None, (T,)))
+                            elif a_fill_x == "alias":
+                                fills.append(("Fill", "x", None, "d", (T, ("D", "d"))))
+                            elif a_fill_x == "alias+slot":
+                                fills.append(("Fill", "x", None, "d", (("D", "d"), ("Slot", "y", "", (), (T,)))))
+                            elif a_fill_x.startswith("passthrough"):
+                                fills.append(("Fill", "x", None, None, (T, ("Slot", a_fill_x[-1], "", (), (T,)))))
+                            if a_fill_y == "plain":
+                                fills.append(("Fill", "y", None, None, (T,)))
+                            b_tag = ("Comp", "b", (), False, tuple(fills) if fills else None)
+                            own = ()
+                            if a_own == "slot-y":
+                                own = (("Slot", "y", "", (), (T,)),)
+                            elif a_own == "slot-x-default":
+                                own = (("Slot", "x", "d", (), (T,)),)
+                            a_tpl = (T, b_tag) + own
+                            pf = []
+                            for given, nm in zip(page_fills, ("x", "y", "default")):
+                                if given:
+                                    pf.append(("Fill", nm, None, None, (T,)))
+                            page = (("Comp", "a", (), False, tuple(pf) if pf else None),)
+                            yield Program(label(page, "P"), {"a": make_spec("a", label(a_tpl, "A")), "b": make_spec("b", label(b_tpl, "B"))}, dict(PAGE_CTX))
+
+
+def family_worker(w, W, payload):
+    (mode,) = payload
+    boot.set_components_setting(context_behavior=mode)
+    h = Harness()
+    agg = par.Agg()
+    for i, prog in enumerate(family_programs()):
+        if i % W != w:
+            continue
+        agg.states += 1
+        agg.nontrivial += 1
+        exp = model_outcome(prog, mode)
+        agg.expected[exp[0] if exp[0] != "err" else "err:" + exp[2]] += 1
+        for variant in ("tag", "dynamic"):
+            dyn = variant == "dynamic"
+            h.install(prog, dynamic=dyn)
+            obs = h.render_page(prog, dynamic=dyn)
+            boot.clear_render_registries()
+            agg.transitions += 1
+            agg.validated += 1
+            if obs[0] == "ok":
+                agg.observe(obs[1])
+            bad = compare(mode, variant, prog, exp, obs)
+            if bad:
+                agg.fail(f"{mode}:{variant}:family:{bad[0]}:{core_of(prog)}", f"[{mode}/{variant}] {bad[1]}",
+                         {"mode": mode, "variant": variant, "program": prog.to_json(mode, dyn), "expected": list(exp), "spec": prog_spec(prog)})
+        if agg.states == 4 and w == 7:
+            agg.sample({"mode": mode, "page": prog.page_source(), "components": {n: c.source() for n, c in prog.comps.items()}, "expected": list(exp)})
+    h.uninstall()
+    return agg
+
+
 def run(ctx):
     b = bounds(ctx.tier)
     ev = ctx.ev
@@ -201,6 +281,12 @@ def run(ctx):
             ctx.fnd.merge_reports(sorted(agg.failures, key=lambda f: (len(json.dumps(f[2]["program"])), f[0])))
             if agg.failures_dropped:
                 ev.extra["failures_dropped"] = ev.extra.get("failures_dropped", 0) + agg.failures_dropped
+    for mode in ("django", "isolated"):
+        agg = par.run_sharded(family_worker, (mode,))
+        ev.add_part(f"three_level_family_{mode}", states=agg.states, transitions=agg.transitions, validated=agg.validated, nontrivial=agg.nontrivial,
+                    observed_distinct=len(agg.observed), expected=agg.expected, bound={"levels": 3, "choices": "page fills x a fills (plain/alias/pass-through) x a own slots x b nested slots x flags"},
+                    samples=agg.samples[:1])
+        ctx.fnd.merge_reports(sorted(agg.failures, key=lambda f: (len(json.dumps(f[2]["program"])), f[0])))
     boot.set_components_setting(context_behavior="django")
     ev.assumptions = [
         "variables have the same value in every scope (scoping is C03)",
